@@ -3,6 +3,7 @@ import DryocVerif.Proofs.Base64Lemmas
 import DryocVerif.Proofs.PwhashStr
 import DryocVerif.Proofs.PwhashExtra
 import DryocVerif.Proofs.GenPwhash
+import DryocVerif.Proofs.PwhashRaw
 /-
 C10 — the password-hash STRING layer (`Model.PwhashStr`, mirroring
 `pwhash_to_string`, `Pwhash::parse_encoded_pwhash`, `crypto_pwhash_str_verify`,
@@ -20,6 +21,14 @@ of this file: libsodium's decoder (`argon2_decode_string`, its field order, its 
 zeros …) and its `crypto_pwhash_STRBYTES = 128` length limit (which a dryoc string with a 64-byte salt or a
 128-byte hash exceeds) are not modelled.  Those clauses are checked only by the differential run against the real
 libsodium.
+
+ALLOCATION.  `crypto_pwhash_str` and `crypto_pwhash_str_verify` run `argon2_hash`, whose
+`self.region.memory.resize(memory_blocks, …)` is `Array.replicate` in the model and cannot fail there: memory
+allocation is assumed to succeed (Vec::resize aborts the process otherwise; libsodium returns ENOMEM); the property
+text bounds the cost parameters.  For the verifier the `m=` cost is text chosen by whoever supplies the string, and
+the code bounds it only by `u32`: `strVerify_memory_request` (§13) states the request — `4·⌊m/4⌋` blocks of 1 KiB, up
+to 4 TiB — so the bound a caller must enforce before calling `crypto_pwhash_str_verify` on untrusted strings is
+explicit.
 -/
 namespace DryocVerif.Properties.C10
 open DryocVerif DryocVerif.Spec.Base64 DryocVerif.Model.PwhashStr
@@ -136,7 +145,25 @@ theorem needs_rehash_encode (alg : Alg) (t m : Nat) (salt hash : Bytes) (opslimi
   cases h1; cases h2
   rw [h3, Nat.mod_eq_of_lt ho, Nat.mod_eq_of_lt hl]
 
-/-- no rehash needed exactly when both recorded costs equal the requested ones -/
+/-- **general form, no hypotheses** (any string, any requested limits): `crypto_pwhash_str_needs_rehash(s, o, l)`
+answers `Ok(false)` exactly when `s` parses and its recorded costs equal the requested ones AFTER `convert_costs`
+(`o as u32`, `(l / 1024) as u32`).  The property's quantifier ranges over the accepted limits
+(`o ≤ 2^32 − 1`, `l / 1024 ≤ 2^32 − 1`), where the truncations are the identity and this coincides with
+`needs_rehash_iff` below; outside it the two differ (`needs_rehash_wraps`). -/
+theorem needsRehash_false_iff_general (s : Str) (o l : Nat) :
+    needsRehash s o l = .ok false ↔
+      ∃ r, parse s = .ok r ∧ r.t = some (o % 2 ^ 32) ∧ r.m = some (l / 1024 % 2 ^ 32) :=
+  Proofs.PwhashRaw.needsRehash_false_iff_general s o l
+
+/-- … and `Ok(true)` exactly when it parses and a recorded cost differs from the truncated request -/
+theorem needsRehash_true_iff_general (s : Str) (o l : Nat) :
+    needsRehash s o l = .ok true ↔
+      ∃ r, parse s = .ok r ∧ (r.t ≠ some (o % 2 ^ 32) ∨ r.m ≠ some (l / 1024 % 2 ^ 32)) :=
+  Proofs.PwhashRaw.needsRehash_true_iff_general s o l
+
+/-- no rehash needed exactly when both recorded costs equal the requested ones — on the encoder's output and for
+requested limits in the accepted range (`ho`, `hl`): the property's quantifier is that range, where this statement
+and `needsRehash_false_iff_general` coincide (the `% 2^32` are the identity) -/
 theorem needs_rehash_iff (alg : Alg) (t m : Nat) (salt hash : Bytes) (opslimit memlimit : Nat)
     (ht : t < 2 ^ 32) (hm : m < 2 ^ 32) (hs : salt ≠ []) (hh : hash ≠ [])
     (ho : opslimit < 2 ^ 32) (hl : memlimit / 1024 < 2 ^ 32) :
@@ -572,7 +599,9 @@ theorem pwhashStr_model_eq_cryptoPwhash (pwd salt : Bytes) (opslimit memlimit : 
   Proofs.PwhashExtra.pwhashStr_model_eq_cryptoPwhash pwd salt opslimit memlimit
 
 /-- on the documented domain (`memlimit` below ≈ 2.28 TiB) `crypto_pwhash_str` is total: the
-encoding of the RFC 9106 Argon2id tag when the arguments are valid, `Err` otherwise, never a panic -/
+encoding of the RFC 9106 Argon2id tag when the arguments are valid, `Err` otherwise, never a panic.
+About the model: memory allocation is assumed to succeed (Vec::resize aborts the process otherwise; libsodium
+returns ENOMEM); the property text bounds the cost parameters. -/
 theorem pwhashStr_model_total {pwd salt : Bytes} {opslimit memlimit : Nat}
     (h7 : 7 * (memlimit / 1024 / 4) < 2 ^ 32 + 3) :
     (Proofs.Argon2.PwhashValid 32 pwd.length salt.length opslimit memlimit ∧
@@ -624,7 +653,10 @@ example : ∃ s, pwhashStr argon2Model [1, 2, 3, 4] [0, 1, 2, 3, 4, 5, 6, 7, 8, 
 and any password, provided the `m=` cost of the string — if it parses — satisfies
 `7·⌊max(m, 8)/4⌋ − 3 < 2^32` (`m ≲ 2.45·10^9` KiB ≈ 2.28 TiB; the bound of
 `C09.argon2Hash_no_panic` for one lane).  The bound cannot be dropped: the parser accepts
-`m=4294967295`, for which `index_alpha` overflows (`C09.index_alpha_overflow_witness`). -/
+`m=4294967295`, for which `index_alpha` overflows (`C09.index_alpha_overflow_witness`).
+About the model: memory allocation is assumed to succeed (Vec::resize aborts the process otherwise; libsodium
+returns ENOMEM); the property text bounds the cost parameters — here the cost is the `m=` field of the STRING, which
+the code does not bound below `u32`: see `strVerify_memory_request`. -/
 theorem strVerify_model_never_panics (s : Str) (pwd : Bytes)
     (hmem : ∀ r m, parse s = .ok r → r.m = some m → 7 * (max m 8 / 4) < 2 ^ 32 + 3) :
     strVerify argon2Model s pwd ≠ .panic :=
@@ -644,6 +676,44 @@ example : parse "$argon2id$v=19$m=4294967295,t=1,p=1$AA$/w".toList =
       .ok { pwhash := some [255], salt := some [0], ty := some .argon2id, t := some 1,
             m := some 4294967295, p := some 1, version := some 19 }
     ∧ ¬ 7 * (max 4294967295 8 / 4) < 2 ^ 32 + 3 := by decide
+
+/-- **the allocation request of `crypto_pwhash_str_verify`** (`strVerifyMemoryRequest`, `Model/PwhashApi.lean`: the
+argument of `memory.resize(memory_blocks, …)` in `Argon2Instance::initialize`, `none` if the call returns before).
+On a string the parser accepts, with recorded costs `t`, `m` and salt `salt`: when `Argon2Context::new` accepts
+(`t ≥ 1`, `m ≥ 8`, `8 ≤ |salt| ≤ 2^32 − 1`, `|pwd| ≤ 2^32 − 1`) the verify path requests exactly `4·⌊m/4⌋` blocks of
+1024 bytes — between `m − 3` and `m` KiB, the `memoryBlocks` of the one-lane geometry (`C09.memoryGeometry_eq`) — and
+when it rejects, nothing.  `m` is whatever the string says, up to `2^32 − 1` (`parse_ok_range`): a caller that
+verifies untrusted strings must bound `m` itself (e.g. with `crypto_pwhash_str_needs_rehash` / `parse` first). -/
+theorem strVerify_memory_request {s : Str} {r : Parsed} {t m : Nat} {salt : Bytes} (pwd : Bytes)
+    (hp : parse s = .ok r) (ht : r.t = some t) (hm : r.m = some m) (hs : r.salt = some salt) :
+    (Proofs.Argon2.Valid 32 pwd.length salt.length none none t m 1
+        ∧ strVerifyMemoryRequest s pwd = some (m / 4 * 4) ∧ m / 4 * 4 ≤ m ∧ m ≤ m / 4 * 4 + 3) ∨
+    (¬ Proofs.Argon2.Valid 32 pwd.length salt.length none none t m 1 ∧ strVerifyMemoryRequest s pwd = none) :=
+  Proofs.PwhashRaw.strVerify_memory_request pwd hp ht hm hs
+
+/-- a rejected string requests nothing -/
+theorem strVerify_memory_request_err {s : Str} (pwd : Bytes) (hp : parse s = .err) :
+    strVerifyMemoryRequest s pwd = none :=
+  Proofs.PwhashRaw.strVerify_memory_request_err pwd hp
+
+/-- the request is what the Argon2 model's `Ok` path goes through: whenever `argon2_hash` (model) returns `Ok` the
+allocation was requested -/
+theorem argon2Hash_ok_requests {ty t m p : Nat} {pwd salt : Bytes} {outlen : Nat} {h : Bytes}
+    (e : Model.Argon2.argon2Hash ty t m p pwd salt none none outlen = .ok h) :
+    ∃ n, Model.Argon2.argon2MemoryRequest ty t m p pwd.length salt.length outlen = some n :=
+  Proofs.PwhashRaw.argon2Hash_ok_requests e
+
+/-- non-vacuity / the explicit worst case: a 50-character string the parser accepts makes
+`crypto_pwhash_str_verify` request `2^32 − 4` blocks = 4 TiB − 4 KiB (any password), and a moderate one 64 MiB -/
+example : strVerifyMemoryRequest "$argon2id$v=19$m=4294967295,t=1,p=1$AAAAAAAAAAA$/w".toList [1, 2, 3]
+    = some 4294967292 := by decide
+example : strVerifyMemoryRequest "$argon2id$v=19$m=65536,t=2,p=1$AAAAAAAAAAA$/w".toList [] = some 65536 := by decide
+/-- … while a string whose costs `Argon2Context::new` rejects (`m = 1`) requests nothing -/
+example : strVerifyMemoryRequest "$argon2id$v=19$m=1,t=1,p=1$AAAAAAAAAAA$/w".toList [] = none := by decide
+/-- the hypotheses of `strVerify_memory_request` hold on that string (left disjunct: accepted) -/
+example : parse "$argon2id$v=19$m=65536,t=2,p=1$AAAAAAAAAAA$/w".toList =
+    .ok { pwhash := some [255], salt := some [0, 0, 0, 0, 0, 0, 0, 0], ty := some .argon2id, t := some 2,
+          m := some 65536, p := some 1, version := some 19 } := by decide
 
 /-! ## 14. the producer side of the OBJECT API: `PwHash::hash_with_salt(pwd, salt, config)?.to_string()`
 
